@@ -14,6 +14,12 @@ import sys, os, json, subprocess, shutil, re, time
 ROOT = os.path.dirname(os.path.dirname(os.path.abspath(__file__)))
 
 
+def netns(cmd):
+    """run go tests in a private network namespace: other jobs on the host hold the ports the project's tests bind"""
+    import shlex
+    return ["unshare", "-rn", "sh", "-c", "ip link set lo up; exec " + " ".join(shlex.quote(c) for c in cmd)]
+
+
 def sh(cmd, cwd=None, env=None, timeout=1800):
     e = dict(os.environ); e.update({"GOFLAGS": "-mod=mod", "GOPROXY": "off"})
     if env: e.update(env)
@@ -55,7 +61,7 @@ def main():
         names = re.findall(r"^func (Test\w+)\(", demo, re.M)
         if names:
             run_demo = ["go", "test", "-count=1", "-run", "^(" + "|".join(names) + ")$", pkg]
-        rc, out = sh(run_demo, cwd=wt)
+        rc, out = sh(netns(run_demo), cwd=wt)
         res["demo_clean_rc"] = rc; res["ran"].append(" ".join(run_demo) + "  (clean tree)")
         res["demo_passes_without_patch"] = rc == 0
         if rc != 0: res["demo_clean_tail"] = out[-800:]
@@ -65,7 +71,7 @@ def main():
         rc, out = sh(["go", "build", "./..."], cwd=wt)
         res["builds"] = rc == 0
         if rc != 0: res["build_tail"] = out[-800:]
-        rc, out = sh(run_demo, cwd=wt)
+        rc, out = sh(netns(run_demo), cwd=wt)
         res["demo_fails_with_patch"] = rc != 0; res["ran"].append(" ".join(run_demo) + "  (patched tree)")
         res["demo_patched_tail"] = out[-600:]
         # existing tests of the touched packages (demo removed)
@@ -73,7 +79,9 @@ def main():
         rc, out = sh("git diff --name-only", cwd=wt)
         pkgs = sorted({"./" + os.path.dirname(f) for f in out.split() if f.endswith(".go")} | {pkg})
         t0 = time.time()
-        rc, out = sh(["go", "test", "-count=1", "-vet=off"] + pkgs, cwd=wt, timeout=3000)
+        rc, out = sh(netns(["go", "test", "-count=1", "-vet=off"] + pkgs), cwd=wt, timeout=3000)
+        if rc != 0:   # the suite has timing-sensitive tests: one retry
+            rc, out = sh(netns(["go", "test", "-count=1", "-vet=off"] + pkgs), cwd=wt, timeout=3000)
         res["existing_tests_pass_with_patch"] = rc == 0; res["ran"].append("go test -count=1 " + " ".join(pkgs) + "  (patched tree, demo removed)")
         if rc != 0: res["existing_tests_tail"] = out[-1500:]
         res["existing_tests_s"] = round(time.time() - t0, 1)
